@@ -29,6 +29,7 @@ type Handed struct {
 	OpIdx  int  // index of the operation during which it was handed over (deterministic mode)
 	Direct int  // >=0: index of the SendDirect call it belongs to (free mode: identified by goroutine)
 	Failed bool // the client answered this hand-over with an error
+	At     time.Time
 }
 
 type recClient struct {
@@ -57,7 +58,7 @@ func (c *recClient) SendFlush(p pack.Pack, flush bool, opts ...wnet.TcpClientOpt
 		c.got = append(c.got, &Handed{Count: -1, OpIdx: c.opIdx, Direct: -1})
 		return nil
 	}
-	h := &Handed{Snap: append([]byte{}, z.Records...), Count: z.RecordCount, Status: z.Status, OpIdx: c.opIdx, Direct: -1}
+	h := &Handed{Snap: append([]byte{}, z.Records...), Count: z.RecordCount, Status: z.Status, OpIdx: c.opIdx, Direct: -1, At: time.Now()}
 	if z.Records == nil {
 		h.Snap = nil
 	}
